@@ -20,7 +20,10 @@ RULE = (
     "(b) Hypothesis: the same options + statements written by pyjelly delimited (options-only first frame, "
     "leading empty frames, arbitrary cuts) and non-delimited (read from BytesIO and from non-seekable raw / buffered sources whose "
     "first reads deliver 1 and 2 bytes), stream names tuned so the options row / first "
-    "frame are 8..12, 126..130 bytes; both must parse (both integrations) to the input. "
+    "frame are 8..12, 126..130 bytes; both must parse (both integrations) to the input. (c) the same statements through the "
+    "serializer entry points that let the caller choose the mode (rdflib Graph.serialize with options+stream / with a "
+    "stream only / to a destination, stream_frames of both integrations): first bytes classified as the requested mode, "
+    "non-delimited output is one bare frame, both modes parse to the same content. "
     "non-trivial = header with 0x0A in >=2 positions or a multi-byte varint (a), first frame or options row "
     "of length 10 or >=128 (b); distinct by header bytes resp. case hash."
 )
@@ -258,6 +261,50 @@ def check_e2e(case, acc):
             if got != exp:
                 return Violation(f"C08:e2e-{label}-differs", f"{integ} {label} parse differs from input; "
                                  f"first bytes {data[:3].hex()}", case)
+    return written_by_pyjelly(case, acc)
+
+
+WRITERS = [("rdflib", "serialize"), ("rdflib", "serialize_stream_only"), ("rdflib", "serialize_dest"), ("rdflib", "stream_frames"),
+           ("generic", "stream_frames_gen"), ("generic", "stream_frames_sink")]
+
+
+def written_by_pyjelly(case, acc):
+    """'everything pyjelly writes in either mode': the same statements through the serializer entry points that let the
+    caller choose the mode; the first bytes must be classified as the mode that was asked for, the non-delimited output
+    must be one bare frame, and both must parse to the same content."""
+    from vlib import scen
+
+    stmts = case["statements"]
+    if not stmts:
+        return None
+    for integ, entry in WRITERS:
+        outs = {}
+        for mode in (True, False):
+            cfg = {"integration": integ, "entry": entry, "phys": case["phys"], "logical": 1 if case["phys"] == "TRIPLES" else 2,
+                   "delimited": mode, "frame_size": 2, "preset": case["preset"], "statements": stmts,
+                   "params": {"generalized": integ == "generic", "rdf_star": integ == "generic", "stream_name": ""}}
+            try:
+                data, _ = scen.write_rdflib(cfg) if integ == "rdflib" else scen.write_generic(cfg)
+            except Exception as exc:  # noqa: BLE001
+                return Violation(f"C08:writer-raises:{type(exc).__name__}", f"{integ}.{entry} delimited={mode}: {exc!r}", case)
+            if acc is not None:
+                acc.count("pyjelly_written_outputs")
+            if hint(data[:3]) != mode:
+                return Violation("C08:written-mode-misclassified", f"{integ}.{entry} asked for delimited={mode}; the first bytes "
+                                 f"{data[:3].hex()} are classified as delimited={hint(data[:3])}", case)
+            if not mode:
+                try:
+                    wire.split_frame_raw(data)
+                except Exception as exc:  # noqa: BLE001
+                    return Violation("C08:nondelimited-output-not-a-bare-frame", f"{integ}.{entry}: {exc!r}", case)
+            try:
+                ev = pyj.only_statements(pyj.parse_flat(data, "generic"))
+            except Exception as exc:  # noqa: BLE001
+                return Violation("C08:written-output-rejected", f"{integ}.{entry} delimited={mode}: {type(exc).__name__}: {exc}", case)
+            outs[mode] = sorted(repr([list(T.norm(t)) for t in s_]) for s_ in ev)
+        if outs[True] != outs[False]:
+            return Violation("C08:modes-parse-differently", f"{integ}.{entry}: the delimited and the non-delimited output of the "
+                             f"same statements parse to different content", case)
     return None
 
 
